@@ -3,7 +3,7 @@
 (* flags), checks facts about the DEFINITION of the result tensor on each (element independence C06,        *)
 (* collection = sum of leaves C05, shape rule), and the dumped scenarios are the test plan that the          *)
 (* harness executes on real objects (binding A, spec -> code).                                               *)
-EXTENDS FieldWrap, TLC
+EXTENDS FieldAlgo, TLC
 CONSTANTS SrcArrs, SensArrs, PPs, Fields, Aggs, Flags
 VARIABLES sc, e
 vars == <<sc, e>>
@@ -86,6 +86,9 @@ ShapeMatches == WellFormed(e) =>
     LET x == Expected(e)  fs == FullShape(e) IN
     /\ Len(x) = fs[1] /\ Len(x[1]) = fs[2] /\ Len(x[1][1]) = fs[3]
     /\ \A k \in 1..Len(e.sensors) : Len(x[1][1][k]) = (IF e.agg # "none" THEN 1 ELSE Len(e.sensors[k].pix))
+\* the implementation view (FieldAlgo.tla: tile, poso, groups, level1, reduce loop, sensor rotation, aggregation, sumup) yields the
+\* tensor of the requirement view
+AlgoRefines == WellFormed(e) => Refines(e)
 \* C04: a left-handed sensor differs from the right-handed one only by the sign of the x component
 Handed == WellFormed(e) =>
     LET flip == [e EXCEPT !.sensors = [k \in 1..Len(e.sensors) |-> [e.sensors[k] EXCEPT !.left = ~e.sensors[k].left]]]
